@@ -65,8 +65,10 @@ def w_family(ctx, rng, idx):
             call('transform.%s.partial' % fam, f.partial, t, k, prop=P, refusals=refus)
             for k2 in range(dim):
                 call('transform.%s.partial2' % fam, f.partial2, t, k, k2, prop=P, refusals=refus)
+        t0 = t.copy()
         call('transform.%s.gradient' % fam, f.gradient, t, prop=P, refusals=refus)
         call('transform.%s.hessian' % fam, f.hessian, t, prop=P, refusals=refus)
+        ctx.check('transform.%s' % fam, 'evaluation_point_unchanged', np.array_equal(t, t0), ['family=' + fam], {'before': t0, 'after': t}, prop=P)
     # array of points
     m = int(rng.integers(1, 6))
     T = rng.uniform(-2, 2, size=(dim, m))
